@@ -461,6 +461,9 @@ def corpus():
                     [["Read"], ["Assign", 17], ["Assign", 16]], [["QuietAssign", 17], ["Assign", 17], ["Assign", 18]]):
             cs.append(dict(kind="normal", mode="equality", default=DRANGE_DEFAULT, statics=statics, dyn=dyn, raises=[],
                            variant="drange", ops=ops))
+    # comparisons that have no truth value / raise, with an observe handler registered BEFORE the legacy ones
+    cs.append(dict(kind="normal", mode="equality", default=6, statics=[], dyn=["obs", "otc", "otcany", "obs"], raises=[],
+                   ops=[["Assign", 2], ["Assign", 14], ["Assign", 2], ["Assign", 5], ["Assign", 14], ["Assign", 14], ["Assign", 5]]))
     # traits that store the ORIGINAL value (Expression / AdaptsTo style): trigger of F22 (repaired) so that a reversal is detected
     for mode in ("none", "identity", "equality"):
         cs.append(dict(kind="normal", mode=mode, default=6, statics=["changed"], dyn=["obs", "otc"], raises=[], orig=True,
